@@ -141,7 +141,20 @@ pub fn gen_case(c: &mut Choices) -> Case {
             if parts.iter().any(|p| *p == "props" || *p == "emits" || *p == "name") {
                 labels.push("shorthand-option-key".into());
             }
-            format!("{setup}, {{ {} }}", parts.join(", "))
+            let mut lit = format!("{{ {} }}", parts.join(", "));
+            if c.chance(1, 6) {
+                // redundant parentheses around a literal computed key
+                for k in ["props", "emits", "name"] {
+                    lit = lit.replace(&format!("[\"{k}\"]:"), &format!("[(\"{k}\")]:"));
+                }
+                labels.push("parenthesised-computed-option-key".into());
+            }
+            if c.chance(1, 5) {
+                // ... and around the options literal itself
+                labels.push("parenthesised-options-literal".into());
+                lit = format!("({lit})");
+            }
+            format!("{setup}, {lit}")
         }
         3 => {
             labels.push("shape=literal-spread-first".into());
